@@ -55,6 +55,28 @@ AST_BIN = {ast.Add: "add", ast.Sub: "sub", ast.Mult: "mul", ast.Div: "div", ast.
 # trees: ('c', float) ('t', q, s) ('neg', e) ('pos', e) (binop, a, b) (fn1, a) (fn2, a, b)
 # ---------------------------------------------------------------------------------------
 
+# user-supplied context functions (differentiated by aldi/finite_differentiators.py); total and smooth on all reals,
+# written with numpy so that they also take arrays (stacked-time evaluation hands them one array over all columns)
+def softplus(x, a):
+    return np.log(1 + np.exp(a * x)) / a
+
+
+def mix(u, v, w):
+    return w * u * u + (1 - w) * np.sin(v)
+
+
+def hyp(u, v):
+    return np.sqrt(1 + u * u + v * v)
+
+
+USER_FUNCS = {"softplus": softplus, "mix": mix, "hyp": hyp}
+USER_ARITY = {"softplus": 2, "mix": 3, "hyp": 2}
+
+
+def uses_user(tree) -> bool:
+    return tree[0] in USER_FUNCS or (tree[0] not in ("c", "t") and any(uses_user(c) for c in tree[1:]))
+
+
 def fmt_const(c: float) -> str:
     s = repr(float(c))
     if "e" in s or "inf" in s or "nan" in s:
@@ -79,6 +101,8 @@ def render(tree, names, lb="[", rb="]") -> str:
         return k + "(" + render(tree[1], names, lb, rb) + ")"
     if k in FN2:
         return k + "(" + render(tree[1], names, lb, rb) + "," + render(tree[2], names, lb, rb) + ")"
+    if k in USER_FUNCS:
+        return k + "(" + ",".join(render(c, names, lb, rb) for c in tree[1:]) + ")"
     raise ValueError(k)
 
 
@@ -137,6 +161,8 @@ def plain(tree, env):
     k = tree[0]
     if k == "c": return tree[1]
     if k == "t": return env[(tree[1], tree[2])]
+    if k in USER_FUNCS:
+        return float(USER_FUNCS[k](*[plain(c, env) for c in tree[1:]]))
     a = plain(tree[1], env)
     if k == "neg": return -a
     if k == "pos": return a
@@ -306,6 +332,48 @@ def gen_general(rng, depth, nq, env, avoid=(), p_rej=0.0):
     return node(depth)
 
 
+def gen_smooth(rng, depth, leaves, env, user=0.0):
+    """total smooth trees (no domain, no kink): + - * unary minus, exp, logistic, **2, and -- with weight `user` -- calls of the
+    user context functions; `leaves` are the tokens allowed; every node is kept moderate at the point `env`"""
+    def leaf():
+        if rng.chance(0.8):
+            q, s = rng.choice(leaves)
+            return ("t", q, s)
+        return ("c", round(0.25 + 1.5 * rng.random(), 2) * rng.choice([1, 1, -1]))
+
+    def ok(t):
+        try:
+            v = plain(t, env)
+        except (ValueError, ZeroDivisionError, OverflowError):
+            return False
+        if not (isinstance(v, float) and math.isfinite(v) and abs(v) <= 12):
+            return False
+        if t[0] == "exp":
+            return abs(plain(t[1], env)) <= 2.5
+        return True
+
+    def node(d):
+        if d == 0 or rng.chance(0.15):
+            return leaf()
+        for _ in range(6):
+            k = rng.weighted([("add", 3), ("sub", 2), ("mul", 3), ("neg", 0.7), ("exp", 1), ("logistic", 1), ("sq", 1),
+                              ("softplus", 4 * user), ("mix", 4 * user), ("hyp", 4 * user)])
+            if k in ("neg", "exp", "logistic"):
+                t = (k, node(d - 1))
+            elif k == "sq":
+                t = ("pow", node(d - 1), ("c", 2.0))
+            elif k == "softplus":
+                t = (k, node(d - 1), ("c", rng.choice([1.0, 2.0, 0.5])))
+            elif k == "mix":
+                t = (k, node(d - 1), node(d - 1), (("c", rng.choice([0.25, 0.4, 0.7])) if rng.chance(0.7) else leaf()))
+            else:
+                t = (k, node(d - 1), node(d - 1))
+            if ok(t):
+                return t
+        return leaf()
+    return node(depth)
+
+
 def gen_data(rng, nq, dyadic: bool, ncols=5):
     if dyadic:
         return np.array([[rng.dyadic(-4, 4, 2) for _ in range(ncols)] for _ in range(nq)], dtype=float)
@@ -349,7 +417,8 @@ def impl_tree(case):
     wrt = wrt_for(e, mode)
     data = np.array(case["data"], dtype=float)
     try:
-        c = Context(factory_for(mode), [e], eid_to_wrts={0: tuple(wrt)}, qid_to_logly={i: bool(l) for i, l in enumerate(case["logly"])}, context=None)
+        c = Context(factory_for(mode), [e], eid_to_wrts={0: tuple(wrt)}, qid_to_logly={i: bool(l) for i, l in enumerate(case["logly"])},
+                    context=(dict(USER_FUNCS) if uses_user(case["tree"]) else None))
         with np.errstate(all="ignore"):
             d, v = c.eval_to_arrays(data, case["off"])
     except TypeError as ex:
@@ -431,7 +500,7 @@ def oracle_tree(case):
     _, v, d, e, wrt = r
     data0 = np.array(case["data"], dtype=float)
     off = case["off"]
-    pe = PlainEquator([e], context=None)
+    pe = PlainEquator([e], context=(dict(USER_FUNCS) if uses_user(case["tree"]) else None))
     logly = case["logly"]
     mode = case["mode"]
 
@@ -634,6 +703,30 @@ def run_trees(ctx: Ctx, bad_rules: set, oracle_only=False, scale=1):
             continue
         gen.append({"tree": t, "nq": nq, "logly": logly, "mode": r.weighted([("sys", 3), ("flat", 1), ("nf", 1)]), "off": 2,
                     "data": data.tolist()})
+    # --- trees with user context functions (finite_differentiators.py): oracle only, the Lean model has no rule for them
+    usr = []
+    rng = ctx.rng.fork("user-trees")
+    n_usr = ctx.n(150, 3000) * scale
+    tries = 0
+    while len(usr) < n_usr and tries < 20 * n_usr:
+        tries += 1
+        r = rng.fork(tries)
+        nq = r.randint(1, 3)
+        logly = [1 if r.chance(0.3) else 0 for _ in range(nq)]
+        data = gen_data(r, nq, False)
+        env = {(q, s): float(data[q, 2 + s]) for q in range(nq) for s in (-2, -1, 0, 1, 2)}
+        t = gen_smooth(r, r.randint(1, 3), [(q, sft) for q in range(nq) for sft in SHIFTS], env, user=1.0)
+        if not has_token(t) or not uses_user(t):
+            continue
+        usr.append({"tree": t, "nq": nq, "logly": logly, "mode": r.weighted([("sys", 2), ("flat", 1), ("nf", 1)]), "off": 2,
+                    "data": data.tolist()})
+    for c in usr:
+        ctx.count("tree-user-function-cases")
+        ctx.nontriv(("tree-user", tuple(sorted(kinds_in(c["tree"]))), c["mode"], tuple(c["logly"])))
+        check_tree_oracle(ctx, c, bad_rules)
+    ctx.evaluations += len(usr)
+    if usr:
+        ctx.sample({"stream": "tree-user", "equation": render(usr[0]["tree"], names_for(usr[0]["nq"])), "mode": usr[0]["mode"]})
     for c in directed + poly + gen:
         ctx.count("tree-mode:" + c["mode"])
         ctx.count("tree-root:" + c["tree"][0])
@@ -665,7 +758,7 @@ def kinds_in(tree, acc=None):
 # random small models: systemize, steady (flat, non-flat), stacked time; scatter maps
 # ---------------------------------------------------------------------------------------
 
-def gen_model(rng, bad_rules: set, linear_in_growth=False):
+def gen_model(rng, bad_rules: set, user=False):
     """source text of a small model plus steady values; every right-hand side is a guarded random tree"""
     nx = rng.randint(2, 4)
     nmeas = rng.randint(0, 2)
@@ -717,6 +810,16 @@ def gen_model(rng, bad_rules: set, linear_in_growth=False):
                     continue
             except Exception:
                 continue
+            if user:
+                n2, s2 = leaf_gen(r)
+                w = r.choice(["softplus", "mix", "hyp"])
+                t = {"softplus": ("softplus", t, ("c", r.choice([1.0, 2.0]))), "hyp": ("hyp", t, ("t", qid[n2], s2)),
+                     "mix": ("mix", t, ("t", qid[n2], s2), ("c", 0.4))}[w]
+                try:
+                    if not abs(plain(t, env)) < 40:
+                        continue
+                except Exception:
+                    continue
             if shock is not None:
                 t = ("add", t, ("mul", ("t", qid[shock], 0), ("c", round(0.5 + rng.random(), 2))))
             return t
@@ -749,7 +852,10 @@ def gen_model(rng, bad_rules: set, linear_in_growth=False):
         src.append("!log-variables " + ", ".join(lg))
     assign = {n: [level[n], change[n]] for n in xs + ys}
     assign.update(par)
-    return {"source": "\n".join(src), "assign": assign}
+    out = {"source": "\n".join(src), "assign": assign}
+    if user:
+        out["context"] = sorted(USER_FUNCS)
+    return out
 
 
 def guards_ok(t, env) -> bool:
@@ -775,7 +881,12 @@ def guards_ok(t, env) -> bool:
 
 def build_model(case):
     import irispie as ir
-    m = ir.Simultaneous.from_string(case["source"])
+    kw = {}
+    if case.get("context"):
+        kw["context"] = {n: USER_FUNCS[n] for n in case["context"]}
+    if case.get("flat"):
+        kw["flat"] = True
+    m = ir.Simultaneous.from_string(case["source"], **kw)
     asg = {k: (tuple(v) if isinstance(v, list) else v) for k, v in case["assign"].items()}
     m.assign(**asg)
     return m
@@ -890,9 +1001,9 @@ def oracle_steady(ctx: Ctx, case, m=None):
     for flavour in ("flat", "nonflat"):
         v = copy.deepcopy(m._variants[0])
         if flavour == "flat":
-            ev = se.FlatSteadyEvaluator(wrt, [], eqs, qs, v, context=None, iter_printer_settings={})
+            ev = se.FlatSteadyEvaluator(wrt, [], eqs, qs, v, context=m.get_context(), iter_printer_settings={})
         else:
-            ev = se.NonflatSteadyEvaluator(wrt, wrt, eqs, qs, v, context=None, iter_printer_settings={})
+            ev = se.NonflatSteadyEvaluator(wrt, wrt, eqs, qs, v, context=m.get_context(), iter_printer_settings={})
         g0 = np.array(ev.get_init_guess(), dtype=float)
         try:
             with np.errstate(all="ignore"):
@@ -955,7 +1066,7 @@ def oracle_stacked(ctx: Ctx, case, m=None, T=3):
     arr[xq, :] = arr[xq, :] * wob[xq, :]
     spots = [Token(q, c) for c in cols for q in xq]
     try:
-        ev = ste.create_evaluator(spots, cols, eqs, qs, None, None)
+        ev = ste.create_evaluator(spots, cols, eqs, qs, None, m.get_context())
         g0 = np.array(ev.get_init_guess(arr.copy()), dtype=float)
         with np.errstate(all="ignore"):
             f0 = np.array(ev.eval_func(g0.copy(), arr.copy()), dtype=float)
@@ -1063,7 +1174,7 @@ def maps_lines(ctx: Ctx, case, m):
     cols = list(range(-ms, -ms + 3))
     xq = [q.id for q in inv.quantities if q.kind in QK.TRANSITION_VARIABLE]
     spots = [Token(q, c) for c in cols for q in xq]
-    jac = Jacobian(eqs, spots, m.create_qid_to_logly(), context=None, columns_to_eval=cols, terminator=None)
+    jac = Jacobian(eqs, spots, m.create_qid_to_logly(), context=m.get_context(), columns_to_eval=cols, terminator=None)
     wrts = [[t for t in e.incidence if t.qid in set(xq)] for e in eqs]
     ws = ["stacked"] + tok_list(spots) + [str(len(cols))] + [str(c) for c in cols] + [str(len(wrts))]
     for w in wrts: ws += tok_list(w)
@@ -1104,6 +1215,192 @@ def staged_ad_lines(case, m):
     return lines, impl
 
 
+# ---------------------------------------------------------------------------------------
+# solvable forward-looking models through the public simulate(method="stacked_time"): frames, terminal condition
+# ---------------------------------------------------------------------------------------
+
+def gen_forward_model(rng, user=False):
+    """2-3 transition variables, each with its own dynamics  u = a1*u{+1} + a2*u{+2} + b*u{-1} + h(earlier variables) + k + c*shock
+    (u = x or log(x) for a log-variable), |a1|+|a2|+|b| < 1 and h depending on earlier variables only: the linearisation is block
+    triangular with exactly one stable root per variable, so the first-order solution (hence the default terminal condition) exists.
+    Leads up to 2; `k` makes the chosen point a flat steady state; h is a random smooth tree, with user context functions if `user`."""
+    n = rng.randint(2, 3)
+    xs = [f"x{i}" for i in range(n)]
+    lead = [rng.choice([0, 1, 2, 2]) for _ in range(n)]
+    if max(lead) < 2 and rng.chance(0.7):
+        lead[rng.randint(0, n - 1)] = 2
+    if max(lead) == 0:
+        lead[0] = 1
+    logly = [rng.chance(0.3) for _ in range(n)]
+    level = [round(0.8 + 1.2 * rng.random(), 3) for _ in range(n)]
+    ps = ["p0"]
+    par = {"p0": round(0.3 + 1.0 * rng.random(), 3)}
+    shocks = [f"e{i}" for i in range(n)]
+    names = xs + ps + shocks
+    qid = {nm: i for i, nm in enumerate(names)}
+    env = {}
+    for i in range(n):
+        for sft in range(-3, 4):
+            env[(i, sft)] = level[i]
+    for sft in range(-3, 4):
+        env[(qid["p0"], sft)] = par["p0"]
+        for e in shocks:
+            env[(qid[e], sft)] = 0.0
+
+    def u(i, sft):
+        return ("log", ("t", i, sft)) if logly[i] else ("t", i, sft)
+    eqs = []
+    for i in range(n):
+        sign = lambda: rng.choice([1, 1, -1])
+        terms = [("mul", ("c", sign() * round(0.1 + 0.2 * rng.random(), 2)), u(i, -1))]
+        if lead[i] >= 1:
+            terms.append(("mul", ("c", sign() * round(0.1 + 0.2 * rng.random(), 2)), u(i, 1)))
+        if lead[i] == 2:
+            terms.append(("mul", ("c", sign() * round(0.1 + 0.15 * rng.random(), 2)), u(i, 2)))
+        leaves = [(j, sft) for j in range(i) for sft in range(-1, lead[j] + 1)] + [(qid["p0"], 0)]
+        h = gen_smooth(rng.fork(i), rng.randint(1, 3), leaves, env, user=(1.0 if user else 0.0))
+        if user and not uses_user(h):
+            h = ("softplus", h, ("c", 2.0)) if len(leaves) < 2 else ("hyp", h, ("t",) + tuple(rng.choice(leaves)))
+        terms.append(("mul", ("c", round(0.1 + 0.2 * rng.random(), 2)), h))
+        rhs = terms[0]
+        for t in terms[1:]:
+            rhs = ("add", rhs, t)
+        k = plain(u(i, 0), env) - plain(rhs, env)
+        rhs = ("add", ("add", rhs, ("c", float(k))), ("mul", ("c", round(0.5 + 0.5 * rng.random(), 2)), ("t", qid[shocks[i]], 0)))
+        eqs.append((u(i, 0), rhs))
+    src = ["!transition-variables " + ", ".join(xs), "!parameters p0", "!transition-shocks " + ", ".join(shocks), "!transition-equations"]
+    for lhs, rhs in eqs:
+        src.append(f"  {render(lhs, names, '{', '}')} = {render(rhs, names, '{', '}')};")
+    if any(logly):
+        src.append("!log-variables " + ", ".join(x for x, l in zip(xs, logly) if l))
+    T = rng.randint(3, 5)
+    init = {x: round(level[i] * (0.7 + 0.6 * rng.random()), 3) for i, x in enumerate(xs)}
+    shock_values = {e: [round(0.4 * (rng.random() - 0.5), 3) if rng.chance(0.5) else 0.0 for _ in range(T)] for e in shocks}
+    out = {"kind": "forward-model", "source": "\n".join(src), "assign": dict({x: level[i] for i, x in enumerate(xs)}, **par),
+           "flat": True, "periods": T, "initial": init, "shocks": shock_values, "terminal": "first_order", "max_lead": max(lead)}
+    if user:
+        out["context"] = sorted(USER_FUNCS)
+    return out
+
+
+class _Captured(Exception):
+    pass
+
+
+def oracle_simulate_stacked(ctx: Ctx, case):
+    """run the public simulate(..., method="stacked_time") and compare, for every frame, the (eval_func, eval_jacob) pair that irispie
+    hands to its solver: Jacobian at the solver's starting point vs Richardson differences of the stacked residuals (terminal condition,
+    frames and user functions included -- whatever the real pipeline builds)"""
+    import io, contextlib
+    import irispie as ir
+    import neqs
+    try:
+        m = build_model(case)
+        with contextlib.redirect_stdout(io.StringIO()):
+            m.solve()
+    except Exception as ex:
+        ctx.count("forward-models:build-or-solve-raised:" + type(ex).__name__)
+        return
+    T = case["periods"]
+    start = ir.qq(2021, 1)
+    end = start + (T - 1)
+    db = ir.Databox()
+    for x, v in case["initial"].items():
+        if case.get("terminal") == "data":     # terminal condition taken from the data: supply the periods after the end
+            lv = float(case["assign"][x])
+            db[x] = ir.Series(periods=(start - 1, start - 2, end + 1, end + 2), values=np.array([v, v, lv, 0.9 * lv], dtype=float))
+        else:
+            db[x] = ir.Series(periods=(start - 1, start - 2), values=np.array([v, v], dtype=float))
+    for e, vals in case["shocks"].items():
+        db[e] = ir.Series(start=start, values=np.array(vals, dtype=float))
+    frames = []
+    original = neqs.damped_newton
+
+    def capturing(*, eval_func, eval_jacob, init_guess, args=(), **kwargs):
+        data, = args
+        g0 = np.array(init_guess, dtype=float)
+        rec = {"n": g0.size}
+        try:
+            with np.errstate(all="ignore"):
+                f0 = np.array(eval_func(g0.copy(), data.copy()), dtype=float)
+                rec["finite"] = bool(np.all(np.isfinite(f0)))
+                try:
+                    J = eval_jacob(g0.copy(), data.copy())
+                    rec["J"] = np.array(J.toarray() if hasattr(J, "toarray") else J, dtype=float)
+                except TypeError:
+                    rec["rejected"] = True
+                except Exception as ex:
+                    rec["jacob_raised"] = f"{type(ex).__name__}: {str(ex)[:160]}"
+                if "J" in rec and rec["finite"]:
+                    h = 1e-3
+                    D, E = np.zeros_like(rec["J"]), np.zeros_like(rec["J"])
+                    for j in range(g0.size):
+                        def g(u_):
+                            x = g0.copy(); x[j] += u_
+                            return np.array(eval_func(x, data.copy()), dtype=float)
+                        d1 = (g(h) - g(-h)) / (2 * h)
+                        d2 = (g(h / 2) - g(-h / 2)) / h
+                        D[:, j], E[:, j] = (4 * d2 - d1) / 3, np.abs(d2 - d1)
+                    rec["fd"], rec["err"] = D, E
+        except Exception as ex:
+            rec["func_raised"] = f"{type(ex).__name__}: {str(ex)[:160]}"
+        frames.append(rec)
+        return original(eval_func=eval_func, eval_jacob=eval_jacob, init_guess=init_guess, args=args, **kwargs)
+
+    neqs.damped_newton = capturing
+    try:
+        with contextlib.redirect_stdout(io.StringIO()), np.errstate(all="ignore"):
+            m.simulate(db, start >> end, method="stacked_time", when_fails="silent", terminal=case.get("terminal", "first_order"))
+    except Exception as ex:
+        ctx.count("forward-models:simulate-raised:" + type(ex).__name__)
+    finally:
+        neqs.damped_newton = original
+    if not frames:
+        ctx.count("forward-models:no-frame-captured")
+        return
+    ctx.count("oracle:simulate-stacked-models")
+    ctx.count(f"forward-models:max-lead={case.get('max_lead')}")
+    ctx.count("forward-models:with-user-context-functions" if case.get("context") else "forward-models:without-user-context-functions")
+    for k, rec in enumerate(frames):
+        ctx.count("oracle:simulate-stacked-frames")
+        if rec.get("jacob_raised"):
+            ctx.fail("simulate-stacked:raised", case, f"frame {k}: eval_jacob raised {rec['jacob_raised']} where eval_func evaluates")
+            continue
+        if "J" not in rec or "fd" not in rec:
+            ctx.count("oracle:simulate-stacked-frames-skipped")
+            continue
+        J, D, E = rec["J"], rec["fd"], rec["err"]
+        if J.shape != D.shape:
+            ctx.fail("simulate-stacked:shape", case, f"frame {k}: Jacobian shape {J.shape} vs {D.shape}")
+            continue
+        compare_matrix(ctx, "simulate-stacked", case, f"simulate(method='stacked_time') frame {k} ({J.shape[0]} unknowns, terminal={case.get('terminal')})",
+                       J, lambda i, j: (D[i, j], E[i, j]))
+
+
+def run_forward_models(ctx: Ctx, scale=1):
+    n = ctx.n(16, 200) * scale
+    rng = ctx.rng.fork("forward-models")
+    for i in range(n):
+        r = rng.fork(i)
+        case = gen_forward_model(r, user=(i % 2 == 1))
+        if i % 5 == 4:
+            case["terminal"] = "data"
+        ctx.evaluations += 1
+        ctx.nontriv(("forward-model", case["source"]))
+        if i < 2:
+            ctx.sample({"stream": "forward-model", "source": case["source"], "periods": case["periods"], "terminal": case["terminal"]})
+        oracle_simulate_stacked(ctx, case)
+        # the same models through the direct oracles (scalar evaluation of the user functions: systemize, steady; vectorised: stacked)
+        try:
+            m = build_model(case)
+        except Exception:
+            continue
+        mc = dict(case, kind="model")
+        oracle_systemize(ctx, mc, m)
+        oracle_steady(ctx, mc, m)
+        oracle_stacked(ctx, mc, m)
+
+
 def run_models(ctx: Ctx, bad_rules: set, oracle_only=False, scale=1):
     n = ctx.n(30, 500) * scale
     rng = ctx.rng.fork("models")
@@ -1111,7 +1408,7 @@ def run_models(ctx: Ctx, bad_rules: set, oracle_only=False, scale=1):
     ad_lines, ad_impl, ad_cases = [], [], []
     for i in range(n):
         r = rng.fork(i)
-        case = {"kind": "model", **gen_model(r, bad_rules)}
+        case = {"kind": "model", **gen_model(r, bad_rules, user=(i % 3 == 2))}
         try:
             m = build_model(case)
         except Exception as ex:
@@ -1128,6 +1425,7 @@ def run_models(ctx: Ctx, bad_rules: set, oracle_only=False, scale=1):
         ctx.count(f"models:n-transition-eqs={len(inv.dynamic_descriptor.system_vectors.transition_eids)}")
         ctx.count(f"models:n-measurement-eqs={len(inv.dynamic_descriptor.system_vectors.measurement_eids)}")
         ctx.count("models:with-log-variables" if "!log-variables" in case["source"] else "models:without-log-variables")
+        ctx.count("models:with-user-context-functions" if case.get("context") else "models:without-user-context-functions")
         if i < 2:
             ctx.sample({"stream": "model", "source": case["source"], "assign": case["assign"]})
         oracle_steady(ctx, case, m)
@@ -1136,7 +1434,7 @@ def run_models(ctx: Ctx, bad_rules: set, oracle_only=False, scale=1):
             try:
                 ls, im = maps_lines(ctx, case, m)
                 map_lines += ls; map_impl += im; map_cases += [{"model": case["source"], "request": l[:200]} for l in ls]
-                ls, im = staged_ad_lines(case, m)
+                ls, im = ([], []) if case.get("context") else staged_ad_lines(case, m)   # no Lean rule for user functions
                 ad_lines += ls; ad_impl += im; ad_cases += [{"model": case["source"], "equation": k} for k in range(len(ls))]
             except Exception as ex:
                 ctx.count("models:maps-raised:" + type(ex).__name__)
@@ -1160,6 +1458,9 @@ def replay_case(ctx: Ctx, case, bad_rules=None):
     if case.get("kind") == "tree":
         c = dict(case, tree=tuplify(case["tree"]))
         check_tree_oracle(ctx, c, bad_rules)
+        ctx.evaluations += 1
+    elif case.get("kind") == "forward-model":
+        oracle_simulate_stacked(ctx, case)
         ctx.evaluations += 1
     elif case.get("kind") == "model":
         try:
@@ -1192,6 +1493,7 @@ def run(ctx: Ctx):
     run_corpus(ctx, bad_rules)
     run_trees(ctx, bad_rules)
     run_models(ctx, bad_rules)
+    run_forward_models(ctx)
     ctx.extra["rules_failing_the_oracle"] = sorted(bad_rules)
 
 
@@ -1205,6 +1507,7 @@ def search(ctx: Ctx, seeds):
     run_corpus(ctx, bad_rules)
     run_trees(ctx, bad_rules, oracle_only=True, scale=3)
     run_models(ctx, bad_rules, oracle_only=True, scale=2)
+    run_forward_models(ctx, scale=2)
 
 
 def replay(ctx: Ctx, payload):
